@@ -110,6 +110,7 @@ PROPS["C03"] = dict(
         J("TestC03_Errors", 200, 5000, shards=1),
         J("TestC03_StructuralPlusCancelling", 400, 6000, shards=4),
         J("TestC03_FreshRandomness", 200, 3000, shards=1),
+        J("TestC03_LargeBatches", 12, 150, shards=2),
     ],
 )
 
@@ -357,8 +358,8 @@ import os as _os
 RULE_ADDITIONS = {
     'C01': "Key objects and hashers carry generated histories: the public key is obtained through a generated constructor route (PublicKey(), decoded from a buffer that is then overwritten, one-element aggregate, projective result of RemoveBLSPublicKeys), aggregated keys have inputs with and without cached public keys, KMAC hashers were written to / reset / read before (the reference H(m) comes from a fresh twin), domain tags reach 480 bytes and a one-byte neighbour of the tag must give another signature; the expand-message hasher itself is compared with SP 800-185 KMAC128(tag || suite, 'H2C', m, 128).",
     'C02': 'Keys through generated constructor routes; when the aggregate is the identity (total cancellation is drawn explicitly) an infinity encoding with a stray byte at each of the 47 positions must be rejected. A large-list job puts 15..200 (message, hasher) entries under each of one to three keys, or 15..200 distinct key objects (projective ones among them) under each of one to three messages; the exact sum must be accepted and the sum over the entries beyond the first 64 (16) of each group rejected.',
-    'C03': 'A template job combines 0-4 structural entries (wrong-length / nil signature, identity key, malformed, outside G1, identity signature) with one cancelling pair / triple / swapped pair at generated positions (one case in three: the group at the highest indices). Every call on two or more well-formed entries must draw at least 128 bits from crypto/rand.Reader (the coefficients are fresh per call, not a function of the input).',
-    'C04': 'Input keys through generated constructor routes (projective keys included), private keys with and without cached public keys; lists of 63..300 items around the sizes 64 / 128 / 256 with an identity signature inside. Lists of 15..65 arbitrary E1 points (order-3 points, identity, repeated and negated neighbours next to each other) must sum to the E1 sum of the oracle.',
+    'C03': 'A template job combines 0-4 structural entries (wrong-length / nil signature, identity key, malformed, outside G1, identity signature) with one cancelling pair / triple / swapped pair at generated positions (one case in three: the group at the highest indices). Every call on two or more well-formed entries must draw at least 128 bits from crypto/rand.Reader (the coefficients are fresh per call, not a function of the input). Batches of 33..257 entries (sizes around 64, 128, 256) with none to four invalid positions (first, last, generated; cancelling groups included).',
+    'C04': 'Input keys through generated constructor routes (projective keys included), private keys with and without cached public keys; lists of 63..300 items around the sizes 64 / 128 / 256 with an identity signature inside. Lists of 15..65 arbitrary E1 points (order-3 points, identity, repeated and negated neighbours next to each other) must sum to the E1 sum of the oracle. A few keys of the long lists are held in projective form or were decoded / re-aggregated.',
     'C05': 'Produced objects include the keys a plain Feldman VSS participant returns when dealt an honest vector or one whose entries were moved outside G2 by cancelling amounts.',
     'C06': "For t <= 12 the sharing polynomial's coefficients are recovered and must be non-zero and pairwise distinct; the participant constructor must report what its inspector part refuses. Objects configured with a threshold below the degree of the sharing polynomial, with a foreign group key, or whose caller overwrites a share buffer after a successful add: whatever ThresholdSignature() returns without an error must verify under the group key of the object.",
     'C09': 'The DKG constructors are held to their documented argument contract on tuples with a generated subset of hostile arguments; every DKG handler / ForceDisqualify call of the message feeder must return the documented error class (state-transition when not running, invalid-inputs for an origin outside [0, n), nil otherwise), origins are biased to the range edges and to the dealer, payloads include bare tags; stateless reconstruction with valid or hostile spare shares must give a verifying signature; well-formed list calls and whole DKG networks also run under the address sanitizer in the quick tier. Half of the DKG feeder cases start the instance and draw most steps from the alphabet of well-formed messages around one dealer and one complainer (complaint, answer with valid / zero / r / r-1 / all-ones value, the real vector, the real share, timeouts) in generated order; hostile integers fall next to the documented bound one time in three.',
